@@ -8,9 +8,11 @@ of the SECRET part (hex, Rust's `{:?}` of a byte slice, or text).  The output is
 `#[derive(Debug)]` sites named next to each line; the tie to the code is the correspondence run (`c20:fmt`,
 `c20:log`), in which the harness formats real values built around known secrets and searches the text.
 
-The table follows the code INCLUDING its defects (D9, D16, D17 and the two further types found by this check).
+The table follows the code: for the six types whose derived `Debug` printed the secret (D9, D16, D17 and the two further types
+found by this check) both variants are written down and a `FmtCfg`, read from the source on every run, selects between them.
 -/
 import AskarModel.Base.Bytes
+import AskarModel.Generated.Flags
 
 namespace Askar.SecretFmt
 
@@ -93,32 +95,75 @@ def render (ps : List Piece) (v : Val) : List Tok := ps.map (Piece.render v)
 
 def redactedKey : List Piece := [.lit "KeyPair { secret: <redacted>, public: ", .pub, .lit " }"]
 
-/-- concrete key types (alg/*.rs): redacted, except `BlsKeyPair` whose `secret` field derives `Debug` over the scalar (D16) -/
-def keyFmt (a : Alg) : List Piece :=
-  if a.isBls then [.lit "BlsKeyPair { crv: ", .pub, .lit ", secret: Some(BlsSecretKey(0x", .secHex, .lit ")), public: ", .pub, .lit " }"]
+/-- Which of the six `Debug` implementations are hand-written redacting ones.  The fields are read from the SOURCE on every run
+    (`Generated/Flags.lean`, written by tools/extract.py: a flag is true iff an `impl Debug for T` exists in the file), so the
+    model follows the tree it is checked against: `pinned` is the tree as it was pinned (all six derived: D9, D16, D17 and the two
+    types found by this check), `fixed` the repaired tree, `current` whatever /repo is now. -/
+structure FmtCfg where
+  optionsRedacts : Bool      -- askar-storage/src/options.rs                      impl Debug for Options          (D9)
+  blsSecretRedacts : Bool    -- askar-crypto/src/alg/bls.rs                       impl Debug for BlsSecretKey     (D16)
+  blsKeyGenRedacts : Bool    -- askar-crypto/src/alg/bls.rs                       impl Debug for BlsKeyGen        (D17)
+  argon2Redacts : Bool       -- askar-crypto/src/kdf/argon2.rs                    impl Debug for Argon2           (D17)
+  pgOptionsRedacts : Bool    -- askar-storage/src/backend/postgres/provision.rs   impl Debug for PostgresStoreOptions
+  jwkPartsRedacts : Bool     -- askar-crypto/src/jwk/parts.rs                     impl Debug for JwkParts
+deriving DecidableEq, Repr, Inhabited
+
+def FmtCfg.pinned : FmtCfg := ⟨false, false, false, false, false, false⟩
+def FmtCfg.fixed : FmtCfg := ⟨true, true, true, true, true, true⟩
+def FmtCfg.current : FmtCfg :=
+  { optionsRedacts := Askar.Generated.Flags.optionsDebugRedacts
+    blsSecretRedacts := Askar.Generated.Flags.blsSecretDebugRedacts
+    blsKeyGenRedacts := Askar.Generated.Flags.blsKeyGenDebugRedacts
+    argon2Redacts := Askar.Generated.Flags.argon2DebugRedacts
+    pgOptionsRedacts := Askar.Generated.Flags.pgOptionsDebugRedacts
+    jwkPartsRedacts := Askar.Generated.Flags.jwkPartsDebugRedacts }
+
+def FmtCfg.allRedact (c : FmtCfg) : Bool :=
+  c.optionsRedacts && c.blsSecretRedacts && c.blsKeyGenRedacts && c.argon2Redacts && c.pgOptionsRedacts && c.jwkPartsRedacts
+
+/-- concrete key types (alg/*.rs): redacted; `BlsKeyPair` prints its `secret: Option<BlsSecretKey>` field, whose `Debug` is derived
+    over the scalar (D16) or, repaired, `BlsSecretKey("<secret>")` -/
+def keyFmt (c : FmtCfg) (a : Alg) : List Piece :=
+  if a.isBls then
+    if c.blsSecretRedacts then
+      [.lit "BlsKeyPair { crv: ", .pub, .lit ", secret: Some(BlsSecretKey(\"<secret>\")), public: ", .pub, .lit " }"]
+    else
+      [.lit "BlsKeyPair { crv: ", .pub, .lit ", secret: Some(BlsSecretKey(0x", .secHex, .lit ")), public: ", .pub, .lit " }"]
   else redactedKey
 
-/-- `Debug` of the current tree.
-    REPAIRS: when a redacting `Debug` lands (proposals/C20-D9.diff, -D16, -D17, -PostgresStoreOptions, -JwkParts) replace the
-    `.secText` / `.secHex` / `.secDecList` piece of the corresponding line by `.lit "<secret>"`; `leaky`, the driver's prediction
-    and `leaky_types_exactly` (Lemmas/SecretFmt.lean `leaky_iff`, Props/C20.lean) then have to drop that disjunct, and once no line
-    mentions the secret `fmt_noninterfering_iff` turns the refutation into the full theorem. -/
-def debugFmt : Ty → List Piece
+/-- `Debug` of the tree described by `c` (derived variant = prints the secret; hand-written variant = what the repaired impl prints) -/
+def debugFmt (c : FmtCfg) : Ty → List Piece
   | .secretBytes => [.lit "<secret>"]
   | .arrayKey => [.lit "ArrayKey(\"<secret>\")"]
   | .passKey => [.lit "PassKey(\"<secret>\")"]
   | .entry => [.lit "Entry { ", .pub, .lit ", value: <secret>, tags: … }"]
-  | .options false => [.lit "Options { ", .pub, .lit ", password: \"", .secText, .lit "\", … }"]
-  | .options true => [.lit "Options { ", .pub, .lit ", query: {… \"admin_password\": \"", .secText, .lit "\"}, … }"]
-  | .pgOptions false => [.lit "PostgresStoreOptions { ", .pub, .lit ", uri: \"postgres://user:", .secText, .lit "@…\", admin_uri: \"postgres://user:", .secText, .lit "@…\", … }"]
-  | .pgOptions true => [.lit "PostgresStoreOptions { ", .pub, .lit ", admin_uri: \"postgres://adm:", .secText, .lit "@…\", … }"]
-  | .argon2 => [.lit "Argon2 { password: ", .secDecList, .lit ", salt: ", .pub, .lit ", params: … }"]
-  | .blsKeyGen => [.lit "BlsKeyGen { salt: None, ikm: ", .secDecList, .lit " }"]
+  | .options false =>
+    if c.optionsRedacts then [.lit "Options { ", .pub, .lit ", password: \"<secret>\", …, query: {}, … }"]
+    else [.lit "Options { ", .pub, .lit ", password: \"", .secText, .lit "\", … }"]
+  | .options true =>
+    -- repaired: the query is printed as the set of its keys
+    if c.optionsRedacts then [.lit "Options { ", .pub, .lit ", password: \"\", …, query: {\"admin_account\", \"admin_password\"}, … }"]
+    else [.lit "Options { ", .pub, .lit ", query: {… \"admin_password\": \"", .secText, .lit "\"}, … }"]
+  | .pgOptions false =>
+    -- repaired: `uri` and `admin_uri` are not printed at all (`finish_non_exhaustive`)
+    if c.pgOptionsRedacts then [.lit "PostgresStoreOptions { ", .pub, .lit ", host: …, name: …, username: …, schema: …, .. }"]
+    else [.lit "PostgresStoreOptions { ", .pub, .lit ", uri: \"postgres://user:", .secText, .lit "@…\", admin_uri: \"postgres://user:", .secText, .lit "@…\", … }"]
+  | .pgOptions true =>
+    if c.pgOptionsRedacts then [.lit "PostgresStoreOptions { ", .pub, .lit ", host: …, name: …, username: …, schema: …, .. }"]
+    else [.lit "PostgresStoreOptions { ", .pub, .lit ", admin_uri: \"postgres://adm:", .secText, .lit "@…\", … }"]
+  | .argon2 =>
+    if c.argon2Redacts then [.lit "Argon2 { password: \"<secret>\", salt: ", .pub, .lit ", params: … }"]
+    else [.lit "Argon2 { password: ", .secDecList, .lit ", salt: ", .pub, .lit ", params: … }"]
+  | .blsKeyGen =>
+    if c.blsKeyGenRedacts then [.lit "BlsKeyGen { salt: None, ikm: \"<secret>\" }"]
+    else [.lit "BlsKeyGen { salt: None, ikm: ", .secDecList, .lit " }"]
   | .randomDet => [.lit "RandomDet {}"]
-  | .jwkParts _ => [.lit "JwkParts { ", .pub, .lit ", d / k: \"", .secText, .lit "\", key_ops: None }"]
-  | .key a => keyFmt a
-  | .anyKey a => [.lit "KeyT("] ++ keyFmt a ++ [.lit ")"]
-  | .localKey a => [.lit "LocalKey { inner: KeyT("] ++ keyFmt a ++ [.lit "), ephemeral: false }"]
+  | .jwkParts _ =>
+    if c.jwkPartsRedacts then [.lit "JwkParts { ", .pub, .lit ", d: <secret>, k: None, key_ops: None }"]
+    else [.lit "JwkParts { ", .pub, .lit ", d / k: \"", .secText, .lit "\", key_ops: None }"]
+  | .key a => keyFmt c a
+  | .anyKey a => [.lit "KeyT("] ++ keyFmt c a ++ [.lit ")"]
+  | .localKey a => [.lit "LocalKey { inner: KeyT("] ++ keyFmt c a ++ [.lit "), ephemeral: false }"]
   | .encrypted => [.lit "Encrypted { buffer: <secret>, ", .pub, .lit " }"]
   | .keyEntry => [.lit "KeyEntry { ", .pub, .lit ", params: KeyParams { …, data: Some(<secret>) }, … }"]
   | .store => [.lit "Store(AnyBackend(WrapBackend(SqliteBackend { ", .pub, .lit " })))"]
@@ -126,7 +171,7 @@ def debugFmt : Ty → List Piece
   | .error _ => [.lit "Error { kind: ", .pub, .lit ", cause: …, message: … }"]
 
 /-- decidable classification: does `Debug` of this type depend on the secret part? -/
-def leaky (t : Ty) : Bool := (debugFmt t).any Piece.usesSecret
+def leaky (c : FmtCfg) (t : Ty) : Bool := (debugFmt c t).any Piece.usesSecret
 
 /-- the library's log call sites whose arguments are not plain labels / handles / algorithm names:
     `debug!("Open|Provision|Remove store with options: {:?}", &opts)` in askar-storage/src/any.rs -/
@@ -135,8 +180,8 @@ inductive LogSite
   | label             -- every other site: constant text, handles, algorithm names, counters
 deriving DecidableEq, Repr
 
-def LogSite.leaky : LogSite → Bool
-  | .anyOptions => Askar.SecretFmt.leaky (Ty.options false) || Askar.SecretFmt.leaky (Ty.options true)
+def LogSite.leaky (c : FmtCfg) : LogSite → Bool
+  | .anyOptions => Askar.SecretFmt.leaky c (Ty.options false) || Askar.SecretFmt.leaky c (Ty.options true)
   | .label => false
 
 /-- scenario of a log capture: which sites fire, and whether the URI carried credentials -/
@@ -144,8 +189,8 @@ structure Scenario where
   sites : List LogSite
   uriHasCredentials : Bool
 
-def Scenario.leaks (s : Scenario) : Bool :=
-  s.uriHasCredentials && s.sites.any LogSite.leaky
+def Scenario.leaks (c : FmtCfg) (s : Scenario) : Bool :=
+  s.uriHasCredentials && s.sites.any (LogSite.leaky c)
 
 /-! Key objects on the heap (`Box<AnyKey>` inside `LocalKey`, `SecretBytes`, owned `PassKey`): every one of them has a
     `Drop` that zeroizes (`ArrayKey`, `Ed25519KeyPair`, `BlsSecretKey`, `PassKey`, the RustCrypto / dalek secret types),
